@@ -28,8 +28,14 @@
                                 e -> f (f is the registered fiber of its direction: finished) | X (f waits but is NOT registered: orphan)
                                      | n (f has no pending operation: it was refused / woken by close before)
                                 c -> c
+     DR <chunk 0|1> <n> <base> <inclen> I <ans,…|-> <epoll word> <ans,…|-> …    one read: INIT step, then epoll event WORDS dispatched by the
+        regenerated table Gen.Dispatch (readWord currentTable); answers per step, consumed across the callbacks of the word
+   Output:  one token per step while the operation is registered  <res>/<read>/<left>/<got>/<calls|->
+     DW <send 0|1> <len> I <ans,…|-> <epoll word> <ans,…|-> …                   one write, likewise (writeWord currentTable)
+   Output:  one token per step  <res>/<start>/<calls|->
 -/
 import Driver.Util
+import JanetModel.Stream.Dispatch
 import JanetModel.Stream.Model
 import JanetModel.Gen.ProcStat
 import JanetModel.Proc.SpawnLemmas
@@ -324,6 +330,38 @@ def runS : List String → World → List String → List String
 
 end S
 
+namespace D
+def parseAnsList (t : String) : Option (List Ans) := if t == "-" then some [] else parseAnss (t.splitOn ",")
+def callsOr (cs : List Call) : String := if cs.isEmpty then "-" else showCalls cs
+def showR (o : ROut Nat) : String := s!"{showRRes o.res}/{o.st.read}/{o.st.left}/{o.st.got.length}/{callsOr o.calls}"
+def showW (o : WOut) : String := s!"{showWRes o.res}/{o.start}/{callsOr o.calls}"
+
+def runR (chunk : Bool) (base : Nat) : RSt Nat → List String → List String → Option (List String)
+  | _, [], acc => some acc.reverse
+  | st, w :: a :: rest, acc =>
+    match parseAnsList a, (if w == "I" then some 0 else w.toNat?) with
+    | some as, some e =>
+      let o := if w == "I" then readLoop chunk false JanetModel.Gen.Stream.chunkReadLimit base st as
+               else readWord currentTable chunk false JanetModel.Gen.Stream.chunkReadLimit base st ⟨ofEpoll e, as⟩
+      match o.res with
+      | .pending => runR chunk base o.st rest (showR o :: acc)
+      | _ => some (showR o :: acc).reverse
+    | _, _ => none
+  | _, [_], _ => none
+
+def runW (len : Nat) : Nat → List String → List String → Option (List String)
+  | _, [], acc => some acc.reverse
+  | start, w :: a :: rest, acc =>
+    match parseAnsList a, (if w == "I" then some 0 else w.toNat?) with
+    | some as, some e =>
+      let o := if w == "I" then writeEvent len false start as else writeWord currentTable len false start ⟨ofEpoll e, as⟩
+      match o.res with
+      | .pending => runW len o.start rest (showW o :: acc)
+      | _ => some (showW o :: acc).reverse
+    | _, _ => none
+  | _, [_], _ => none
+end D
+
 def step (_ : Unit) (toks : List String) : Unit × String :=
   match toks with
   | "L" :: st :: ops =>
@@ -353,6 +391,20 @@ def step (_ : Unit) (toks : List String) : Unit × String :=
   | "NA" :: lp :: rest =>
     match N.runA (lp == "1") rest [] with
     | some out => ((), String.intercalate " " out)
+    | none => ((), "parse-error")
+  | "DR" :: ch :: n :: base :: inclen :: rest =>
+    match n.toNat?, base.toNat?, inclen.toNat? with
+    | some n, some base, some inclen =>
+      match D.runR (ch == "1") base (rInit n (List.replicate inclen 0)) rest [] with
+      | some out => ((), String.intercalate " " out)
+      | none => ((), "parse-error")
+    | _, _, _ => ((), "parse-error")
+  | "DW" :: _ :: len :: rest =>
+    match len.toNat? with
+    | some len =>
+      match D.runW len 0 rest [] with
+      | some out => ((), String.intercalate " " out)
+      | none => ((), "parse-error")
     | none => ((), "parse-error")
   | "W" :: len :: dg :: rest =>
     match len.toNat?, parseAnss rest with
